@@ -4,10 +4,16 @@ package main
 
 import (
 	"bytes"
+	"context"
 	"encoding/binary"
 	"fmt"
 	"io"
 	"math"
+	"sync"
+
+	"github.com/gotd/log"
+
+	"github.com/gotd/td/mtproto"
 
 	"github.com/gotd/td/bin"
 	"github.com/gotd/td/crypto"
@@ -202,7 +208,7 @@ func run(c *hx.Ctx, t tc, kind string, emit bool) {
 		}
 		term := hx.Tuple(hx.Z(int64(mode)), hx.Z(int64(t.Side)), hx.PackedBytes(t.Key), hx.PackedBytes(t.KeyID),
 			hx.Tuple(hx.Z(t.Salt), hx.Z(t.Session), hx.Z(t.MsgID), hx.Z(int64(t.SeqNo))), hx.Z(int64(t.MLen)),
-			hx.PackedBytes(modelPayload), hx.PackedBytes(t.Rnd), hx.Tuple(hx.Z(int64(encCode)), hx.PackedBytes(ct)), coqDec(od))
+			hx.PackedBytes(modelPayload), hx.PackedBytes(t.Rnd), hx.Tuple(hx.Z(int64(encCode)), hx.PackedBytes(ct)), coqDec(od), hx.PackedBytes(nil))
 		sh, ix = c.Case(term, t)
 	}
 	c.Count(fmt.Sprintf("%s:mode=%d:len<=%d", kind, t.Mode, bucket(len(t.Payload))))
@@ -247,6 +253,261 @@ func run(c *hx.Ctx, t tc, kind string, emit bool) {
 	if len(ct)-24 != 32+len(modelPayload)+pad {
 		c.Violate("body-length", "encrypted body length != header + payload + padding", sh, ix, t)
 	}
+}
+
+// ---------- the connection layer: mtproto.Conn.newEncryptedMessage through a real Conn ----------
+
+// capture is an in-memory transport that keeps a copy of every frame sent.
+type capture struct {
+	mu     sync.Mutex
+	frames [][]byte
+}
+
+func (t *capture) Send(_ context.Context, b *bin.Buffer) error {
+	t.mu.Lock()
+	t.frames = append(t.frames, append([]byte(nil), b.Buf...))
+	t.mu.Unlock()
+	return nil
+}
+func (t *capture) Recv(ctx context.Context, _ *bin.Buffer) error { <-ctx.Done(); return ctx.Err() }
+func (t *capture) Close() error                                  { return nil }
+
+// schedLogger turns every log line of the connection into a scheduling point: at each one the
+// callback may run "another sender" (a second connection of the same process, sharing the package's
+// buffer pool), exactly as a concurrent goroutine could at that instant.
+type schedLogger struct{ at func(msg string) }
+
+func (schedLogger) Enabled(context.Context, log.Level) bool { return true }
+func (l schedLogger) Log(_ context.Context, _ log.Level, msg string, _ ...log.Attr) {
+	if l.at != nil {
+		l.at(msg)
+	}
+}
+
+type nopHandler struct{}
+
+func (nopHandler) OnMessage(*bin.Buffer) error { return nil }
+func (nopHandler) OnSession(mtproto.Session) error { return nil }
+
+type cc struct {
+	Key       []byte `json:"key"`
+	Salt      int64  `json:"salt"`
+	Session   int64  `json:"session"`
+	MsgID     int64  `json:"msg_id"`
+	SeqNo     int32  `json:"seq_no"`
+	Threshold int    `json:"threshold"` // Options.CompressThreshold (0 = library default 1024, <0 disabled)
+	Payload   []byte `json:"payload"`
+	Intruder  []byte `json:"intruder,omitempty"` // payload another connection sends at every scheduling point
+	Conn      bool   `json:"conn"`
+}
+
+func newConn(key crypto.AuthKey, salt, session int64, threshold int, rnd io.Reader, lg log.Logger, tr *capture) *mtproto.Conn {
+	return mtproto.VerifNew(mtproto.Options{Key: key, Salt: salt, Random: rnd, CompressThreshold: threshold, Logger: lg, Handler: nopHandler{}},
+		mtproto.VerifConfig{Transport: tr, SessionID: session})
+}
+
+// effective threshold as Options.setDefaults computes it
+func effThreshold(t int) int {
+	if t == 0 {
+		return 1024
+	}
+	return t
+}
+
+// runConn sends one content message through a real Conn and checks, on the server side, that exactly the
+// session's header and the caller's payload arrive (C04 at the connection layer). emit => Coq case (mode 3).
+func runConn(c *hx.Ctx, t cc, kind string, emit bool) {
+	c.Obs.Evaluations++
+	var kk crypto.Key
+	copy(kk[:], t.Key)
+	key := kk.WithID()
+	rr := &recReader{r: c.Rng.Fork(), limit: -1}
+	tr := &capture{}
+	depth := 0
+	var other *mtproto.Conn
+	otherTr := &capture{}
+	lg := schedLogger{}
+	if len(t.Intruder) > 0 {
+		other = newConn(key, t.Salt+1, t.Session+1, t.Threshold, c.Rng.Fork(), schedLogger{}, otherTr)
+		lg.at = func(string) {
+			if depth > 0 {
+				return
+			}
+			depth++
+			_ = other.VerifWriteContentMessage(context.Background(), t.MsgID+4, t.SeqNo+2, raw(t.Intruder))
+			depth--
+		}
+	}
+	conn := newConn(key, t.Salt, t.Session, t.Threshold, rr, lg, tr)
+	rr.rec = nil
+	var err error
+	p, pv := hx.Recover(func() { err = conn.VerifWriteContentMessage(context.Background(), t.MsgID, t.SeqNo, raw(t.Payload)) })
+	thr := effThreshold(t.Threshold)
+	gz := thr > 0 && len(t.Payload) > thr
+	branch := "disabled"
+	if thr > 0 {
+		branch = "below-threshold"
+		if gz {
+			branch = "gzip"
+		}
+	}
+	c.Count(fmt.Sprintf("%s:%s:len<=%d", kind, branch, bucket(len(t.Payload))))
+	if p || err != nil || len(tr.frames) != 1 {
+		c.Violate("conn-send-failed", fmt.Sprintf("Conn.writeContentMessage failed: panic=%v err=%v frames=%d", pv, err, len(tr.frames)), -1, 0, t)
+		return
+	}
+	ct := tr.frames[0]
+	od := decrypt(1, key, ct)
+	wire := t.Payload
+	var aux []byte
+	if thr > 0 {
+		aux = gzipEncoded(t.Payload)
+	}
+	if gz {
+		wire = aux
+	}
+	sh, ix := -1, 0
+	if emit {
+		term := hx.Tuple("3", "0", hx.PackedBytes(t.Key), hx.PackedBytes(key.ID[:]),
+			hx.Tuple(hx.Z(t.Salt), hx.Z(t.Session), hx.Z(t.MsgID), hx.Z(int64(t.SeqNo))), hx.Z(int64(thr)),
+			hx.PackedBytes(t.Payload), hx.PackedBytes(rr.rec), hx.Tuple("0", hx.PackedBytes(ct)), coqDec(od), hx.PackedBytes(aux))
+		sh, ix = c.Case(term, t)
+	}
+	c.Nontrivial(fmt.Sprintf("conn/%s/%d/%d/%v", branch, len(t.Payload), t.Salt, len(t.Intruder) > 0))
+	c.Sample(map[string]interface{}{"conn": true, "branch": branch, "payload_len": len(t.Payload), "frame_len": len(ct), "decrypt_code": od.Code})
+	// ---- oracle ----
+	if od.Code != 0 {
+		c.Violate("conn-roundtrip-rejected", fmt.Sprintf("message sent by a Conn (%s branch) rejected by the server side: %s", branch, od.ErrText), sh, ix, t)
+		return
+	}
+	if od.Salt != t.Salt || od.Session != t.Session || od.MsgID != t.MsgID || od.SeqNo != t.SeqNo {
+		c.Violate("conn-header-differs", fmt.Sprintf("%s branch: server decrypted header (salt=%d session=%d msg_id=%d seq_no=%d), connection sent (salt=%d session=%d msg_id=%d seq_no=%d)",
+			branch, od.Salt, od.Session, od.MsgID, od.SeqNo, t.Salt, t.Session, t.MsgID, t.SeqNo), sh, ix, t)
+	}
+	if int(od.MLen) < 0 || int(od.MLen) > len(od.Body) {
+		c.Violate("conn-payload-differs", "decrypted length field out of range", sh, ix, t)
+		return
+	}
+	data := od.Body[:od.MLen]
+	if gz {
+		var g proto.GZIP
+		if err := g.Decode(&bin.Buffer{Buf: append([]byte(nil), data...)}); err != nil {
+			c.Violate("conn-payload-differs", fmt.Sprintf("gzip branch: server cannot unpack the body: %v", err), sh, ix, t)
+			return
+		}
+		data = g.Data
+	}
+	if !bytes.Equal(data, t.Payload) {
+		who := ""
+		if len(t.Intruder) > 0 && bytes.Contains(data, t.Intruder[:min(len(t.Intruder), 16)]) {
+			who = " (it carries the OTHER sender's bytes)"
+		}
+		c.Violate("conn-payload-differs", fmt.Sprintf("%s branch: server decrypted a payload different from the one sent%s; another sender active at scheduling points: %v", branch, who, len(t.Intruder) > 0), sh, ix, t)
+	}
+	_ = wire
+	pad := len(od.Body) - int(od.MLen)
+	if pad < 12 || pad > 1024 || (len(ct)-24)%16 != 0 {
+		c.Violate("padding-out-of-range", fmt.Sprintf("conn: padding %d / body %d", pad, len(ct)-24), sh, ix, t)
+	}
+}
+
+func genConn(c *hx.Ctx, threshold, plen int, intruder bool) cc {
+	r := c.Rng
+	t := cc{Conn: true, Key: r.Bytes(256), Threshold: threshold, Payload: r.Bytes(plen)}
+	if r.Chance(2, 3) {
+		for i := range t.Payload { // compressible
+			t.Payload[i] = byte(i/9) ^ 0x5a
+		}
+	}
+	t.Salt, t.Session, t.MsgID, t.SeqNo = boundary64(r), boundary64(r), boundary64(r)&^3, boundary32(r)
+	if t.Salt == 0 {
+		t.Salt = int64(r.U64()) | 1
+	}
+	if t.MsgID > math.MaxInt64-8 {
+		t.MsgID -= 16
+	}
+	if t.SeqNo > math.MaxInt32-4 {
+		t.SeqNo -= 8
+	}
+	if intruder {
+		t.Intruder = bytes.Repeat([]byte{0xB0, 0x0B, 0xB0, 0x0B}, plen/4+1)
+	}
+	return t
+}
+
+// stress: several connections send concurrently (shared package buffer pool); every frame must decrypt to its own payload.
+func connStress(c *hx.Ctx, senders, msgs int) {
+	var wg sync.WaitGroup
+	type bad struct {
+		t    cc
+		desc string
+	}
+	var mu sync.Mutex
+	var bads []bad
+	seeds := make([]*hx.Rand, senders)
+	for i := range seeds {
+		seeds[i] = c.Rng.Fork()
+	}
+	for g := 0; g < senders; g++ {
+		wg.Add(1)
+		go func(g int) {
+			defer wg.Done()
+			r := seeds[g]
+			var kk crypto.Key
+			copy(kk[:], r.Bytes(256))
+			key := kk.WithID()
+			tr := &capture{}
+			thr := []int{0, 64, -1, 256}[g%4]
+			conn := newConn(key, int64(g)+7, int64(g)+100, thr, r.Fork(), schedLogger{}, tr)
+			for i := 0; i < msgs; i++ {
+				pl := bytes.Repeat([]byte{byte(g), byte(i), byte(i >> 8), 0xEE}, 1+r.Intn(600))
+				if err := conn.VerifWriteContentMessage(context.Background(), int64(i)*4, int32(2*i+1), raw(pl)); err != nil {
+					mu.Lock()
+					bads = append(bads, bad{cc{Conn: true, Threshold: thr}, "send failed: " + err.Error()})
+					mu.Unlock()
+					return
+				}
+				tr.mu.Lock()
+				ct := tr.frames[len(tr.frames)-1]
+				tr.frames = tr.frames[:0]
+				tr.mu.Unlock()
+				od := decrypt(1, key, ct)
+				ok := od.Code == 0 && od.Salt == int64(g)+7 && od.Session == int64(g)+100 && od.MsgID == int64(i)*4 && int(od.MLen) <= len(od.Body)
+				if ok {
+					data := od.Body[:od.MLen]
+					if e := effThreshold(thr); e > 0 && len(pl) > e {
+						var gzp proto.GZIP
+						if err := gzp.Decode(&bin.Buffer{Buf: append([]byte(nil), data...)}); err != nil {
+							ok = false
+						} else {
+							data = gzp.Data
+						}
+					}
+					ok = ok && bytes.Equal(data, pl)
+				}
+				if !ok {
+					mu.Lock()
+					bads = append(bads, bad{cc{Conn: true, Key: key.Value[:], Salt: int64(g) + 7, Session: int64(g) + 100, MsgID: int64(i) * 4, SeqNo: int32(2*i + 1), Threshold: thr, Payload: pl},
+						fmt.Sprintf("concurrent senders: frame %d of sender %d decrypts to something else than what was sent (code %d)", i, g, od.Code)})
+					mu.Unlock()
+					return
+				}
+			}
+		}(g)
+	}
+	wg.Wait()
+	c.Obs.Evaluations += senders * msgs
+	c.Count(fmt.Sprintf("conn-stress:%d senders x %d msgs", senders, msgs))
+	for _, b := range bads {
+		c.Violate("conn-payload-differs", b.desc, -1, 0, b.t)
+	}
+}
+
+func min(a, b int) int {
+	if a < b {
+		return a
+	}
+	return b
 }
 
 func bucket(n int) int {
@@ -319,6 +580,15 @@ func gen(c *hx.Ctx, mode, plen int) tc {
 
 func main() {
 	c := hx.Start("C04", "Run.Check_C04", 6)
+	var rpc cc
+	if c.Replay != "" && c.LoadReplay(&rpc) && rpc.Conn {
+		for i := 0; i < 4 && len(c.Obs.Violations) == 0; i++ {
+			runConn(c, rpc, "replay", i == 0 && len(rpc.Payload) <= 512)
+		}
+		fmt.Printf("replay: conn threshold=%d payload=%d bytes intruder=%v -> violations=%d\n", rpc.Threshold, len(rpc.Payload), len(rpc.Intruder) > 0, len(c.Obs.Violations))
+		c.Finish()
+		return
+	}
 	var rp tc
 	if c.LoadReplay(&rp) {
 		run(c, rp, "replay", true)
@@ -366,6 +636,31 @@ func main() {
 		t.Limit = []int{0, 1, 5, 11, 12}[c.Rng.Intn(5)]
 		run(c, t, "short-random", true)
 	}
+	// ---- connection layer: a real mtproto.Conn, all three branches of newEncryptedMessage ----
+	// small payloads with small thresholds go to Coq too (exact frame bytes from the connection model)
+	for _, thr := range []int{-1, 8, 64, 64, 200} {
+		for _, n := range []int{0, 8, 64, 68, 200, 204, 256} {
+			if c.Thorough() || c.Rng.Chance(1, 3) {
+				runConn(c, genConn(c, thr, n, false), "conn", true)
+			}
+		}
+	}
+	// the library defaults (threshold 0 -> 1024): at, just below and above the threshold, and large
+	for _, n := range []int{0, 512, 1020, 1024, 1028, 4096, 65536} {
+		runConn(c, genConn(c, 0, n, false), "conn-default", false)
+	}
+	for i := 0; i < c.N(60, 1500); i++ {
+		runConn(c, genConn(c, []int{0, -1, 16, 300, 1024, 5000}[c.Rng.Intn(6)], 4*c.Rng.Intn(700), false), "conn-random", false)
+	}
+	// another sender of the same process runs at every scheduling point of the write path (each log line
+	// between encoding and sending): buffers taken from the shared pool must never alias a message in flight
+	for i := 0; i < c.N(40, 600); i++ {
+		t := genConn(c, []int{0, -1, 16, 300, 1024}[c.Rng.Intn(5)], 4*c.Rng.Range(1, 1200), true)
+		for attempt := 0; attempt < 3; attempt++ {
+			runConn(c, t, "conn-interleaved", false)
+		}
+	}
+	connStress(c, 8, c.N(150, 2000))
 	// larger payloads: implementation + oracle only (round trip checked in Go, not evaluated in Coq)
 	big := []int{1024, 4096, 16384, 65536}
 	if c.Thorough() {
@@ -382,7 +677,7 @@ func main() {
 	for i := 0; i < c.N(300, 5000); i++ {
 		run(c, gen(c, c.Rng.Intn(3), 4*c.Rng.Intn(513)), "go-only", false)
 	}
-	c.Obs.Rule = "Cipher.Encrypt with a recorded random stream + DecryptFromBuffer on the other side. Coq correspondence (exact ciphertext bytes and exact decryption result) on payloads of 0..256 bytes only (SHA-256/AES run in the Coq VM): all alignment residues, random small, explicit-length path, gzip path (gzip bytes supplied by Go), malformed lengths, failing random source. Payloads up to 64 KiB (thorough: 16 MiB) and 300 (5000) further random ones are checked by the Go oracle only (round trip, 16 | body, 12 <= padding <= 1024). non-trivial = distinct (mode, side, payload length, first random byte) of a well-formed case"
+	c.Obs.Rule = "(a) Cipher.Encrypt with a recorded random stream + DecryptFromBuffer on the other side. Coq correspondence (exact ciphertext bytes and exact decryption result) on payloads of 0..256 bytes only (SHA-256/AES run in the Coq VM): all alignment residues, random small, explicit-length path, gzip path (gzip bytes supplied by Go), malformed lengths, failing random source. Payloads up to 64 KiB (thorough: 16 MiB) and 300 (5000) further random ones are checked by the Go oracle only (round trip, 16 | body, 12 <= padding <= 1024). (b) connection layer: a real mtproto.Conn (VerifNew + in-memory transport) sends content messages on all three branches of newEncryptedMessage (compression disabled / gzip above threshold / explicit length at or below it, thresholds 8..5000 and the default 1024, payloads around each threshold) with non-zero boundary salts/session ids; server-side oracle: exactly the session header and the payload arrive; small ones also go to Coq (exact frame bytes from conn_encrypt); every log line of the write path is used as a scheduling point at which a second connection sharing the buffer pool sends (3 attempts each), plus 8 concurrent senders. non-trivial = distinct (mode, side, payload length, first random byte) of a well-formed case, or distinct connection case"
 	_ = binary.LittleEndian
 	c.Finish()
 }
